@@ -36,6 +36,13 @@ const (
 // This lets us process the zip in one pass, which normally isn't possible with
 // the directory at the end.
 func ZipToTar(r *os.File, w io.Writer) error {
+	return ZipToTarTrailer(r, w, 0)
+}
+
+// ZipToTarTrailer is ZipToTar for a file that carries trailerLen bytes of
+// non-zip data (for example a signature trailer) after the zip end-of-directory
+// record. The trailer stays part of both tar members.
+func ZipToTarTrailer(r *os.File, w io.Writer, trailerLen int64) error {
 	// only positioned reads: the caller may start another ZipToTar on the same
 	// file (failover) or patch it while an abandoned producer is still running,
 	// so the shared file offset must not be used
@@ -44,7 +51,10 @@ func ZipToTar(r *os.File, w io.Writer) error {
 		return err
 	}
 	size := st.Size()
-	dirLoc, err := FindDirectory(r, size)
+	if trailerLen < 0 || trailerLen > size {
+		return errors.New("invalid zip trailer size")
+	}
+	dirLoc, err := FindDirectory(r, size-trailerLen)
 	if err != nil {
 		return err
 	}
